@@ -870,6 +870,7 @@ type c18WriteCase struct {
 	Call      int    `json:"call"` // 0 = fault-free comparison; -1 = every call; k = fail at call k
 	Short     bool   `json:"short,omitempty"`
 	Transient bool   `json:"transient,omitempty"` // only that call fails, later writes succeed again
+	Mode      int    `json:"mode,omitempty"`      // 0 sticky, 1 sticky short, 2 transient, 3/4 transient (short / nothing taken) with EINTR, 5/6 with EAGAIN
 }
 
 func c18WriteSub() *engine.Sub {
@@ -943,12 +944,21 @@ func c18WriteSub() *engine.Sub {
 				lo, hi = cs.Call, cs.Call
 			}
 			for i := lo; i <= hi; i++ {
-				for mode := 0; mode < 3; mode++ {
-					short, transient := mode == 1, mode == 2
-					if cs.Call > 0 && (short != cs.Short || transient != cs.Transient) {
+				for mode := 0; mode < 7; mode++ {
+					// modes 3..6: the failing call takes half of the data (or nothing) and fails with EINTR / EAGAIN - an
+					// error that invites a retry; later calls succeed. A call that failed has failed: an error, never a CID.
+					short, transient := mode == 1 || mode == 3 || mode == 5, mode >= 2
+					var werr error
+					switch mode {
+					case 3, 4:
+						werr = syscall.EINTR
+					case 5, 6:
+						werr = syscall.EAGAIN
+					}
+					if cs.Call > 0 && mode != cs.Mode && (cs.Mode != 0 || short != cs.Short || transient != cs.Transient) {
 						continue
 					}
-					w := &engine.PosWriter{FailCall: i, Short: short, Transient: transient}
+					w := &engine.PosWriter{FailCall: i, Short: short, Transient: transient, Err: werr}
 					_, err := api.Stream(w)
 					ctx.Eval(1)
 					ctx.Trans(1)
@@ -969,7 +979,10 @@ func c18WriteSub() *engine.Sub {
 					if transient && i != clean.Calls {
 						pos = "transient"
 					}
-					ctx.Failf(&c18WriteCase{API: cs.API, Call: i, Short: short, Transient: transient}, "write-fault-swallowed/"+pos+"/"+strings.Split(api.Name, "[")[0],
+					if werr != nil {
+						pos += "-" + werr.Error()[:4]
+					}
+					ctx.Failf(&c18WriteCase{API: cs.API, Call: i, Short: short, Transient: transient, Mode: mode}, "write-fault-swallowed/"+strings.ReplaceAll(pos, " ", "-")+"/"+strings.Split(api.Name, "[")[0],
 						"%s reports success although write call %d of %d failed (short=%v, later writes succeed=%v): output was not completely written", api.Name, i, clean.Calls, short, transient)
 				}
 			}
